@@ -188,17 +188,18 @@ Fixpoint dyn_try_patterns (line : str) (vs : vars F) (d : dyntype F) (pats : lis
   | pat :: rest =>
     do m <- find_match vs pat (ts_infos st);
     if Nat.eqb (fm_total m) (fm_rule_idx m) then
-      match nth_opt (ts_infos st) (fm_start m), nth_opt (ts_infos st) (Nat.pred (fm_target m)) with
-      | Some _, Some _ =>
-        if Nat.eqb (fm_target m) 0 then Panic SITE_MATCH_INDEX else
-        match get_number vs (s "value") (fm_fields m) with
-        | None => Panic SITE_VALUE_UNWRAP
-        | Some value =>
+      (* a pattern that does not bind a number to "value" is skipped before anything is changed *)
+      match get_number vs (s "value") (fm_fields m) with
+      | None => dyn_try_patterns line vs d rest st
+      | Some value =>
+        match nth_opt (ts_infos st) (fm_start m), nth_opt (ts_infos st) (Nat.pred (fm_target m)) with
+        | Some _, Some _ =>
+          if Nat.eqb (fm_target m) 0 then Panic SITE_MATCH_INDEX else
           do ui' <- ui_type_field line (ts_ui st) (fm_fields m);
           do infos' <- replace_match (ts_infos st) m (TDynamicType value (uref d));
           Ok (Some {| ts_infos := infos'; ts_ui := ui' |})
+        | _, _ => Panic SITE_MATCH_INDEX
         end
-      | _, _ => Panic SITE_MATCH_INDEX
       end
     else dyn_try_patterns line vs d rest st
   end.
